@@ -49,3 +49,19 @@ CHECKS['C16'] = (
     'equivalent for this property (origin test alone prevents the loop) and is reported in evidence '
     '(forwarded_copy:flag_*) rather than failed',
     'DESIGN.md 4/C16, A.5')
+CHECKS['C06'] = (
+    'property-based testing (Hypothesis, seeded) of notification-batch histories against a reference state model, plus exhaustive enumeration of all (current, target) state pairs',
+    'random search over batches of task state notifications (duplicates, reordering, skips, contradictory finals, late non-finals, unknown uids; 1-6 tasks, up to 30 entries per batch) through the real pubsub -> _state_sub_cb -> _update_tasks -> Task._update -> callback path, compared after every batch with a model of the documented linear state model; all 18x18 state pairs enumerated completely against the helper docstring and end-to-end with bystander tasks; no counterexample in the explored domain, coverage measured; not a proof',
+    TB + '; not reached: Task._update(reconnect=True), bulk callbacks, interleavings of _pilot_state_cb with _update_tasks',
+    'DESIGN.md 4/C06, A.1')
+CHECKS['C15'] = (
+    'property-based testing (Hypothesis, seeded) of the four wait calls under a virtual clock against a deadline oracle',
+    'random search over requested state sets (none/[]/one/several) x scripted entity trajectories (incl. other final '
+    'state, never ending, already final) x awaited sets x timeouts through the real Task.wait, Pilot.wait, '
+    'TaskManager.wait_tasks, PilotManager.wait_pilots; return time bounded below by "every awaited entity reached a '
+    'requested state or is final / timeout" and above by that + 2 poll intervals, returned states = actual states; '
+    'non-termination decided per case by a virtual deadline; no counterexample in the explored domain, coverage measured; not a proof',
+    TB + '; module-level `time` of task.py/pilot.py/task_manager.py/pilot_manager.py replaced by a virtual clock, state '
+    'changes land between polls only (no real-thread interleavings); a requested non-final state held for less than one '
+    'poll interval is not demanded to be seen; a loop spinning without any time call cannot be interrupted',
+    'DESIGN.md 4/C15, A.3')
